@@ -209,9 +209,28 @@ pub fn run(ctx: &Ctx) -> i32 {
             if i % 64 == 0 {
                 all.extend(fixed_family(tb));
             }
+            // a damaged text stays malformed when a whitespace-like character is put between two of
+            // its tokens (whether a parser rejects such characters or skips them)
+            let mut extra: Vec<(String, String)> = vec![];
+            for (k, (kind, damaged)) in all.iter().enumerate() {
+                if k % 7 != i % 7 {
+                    continue;
+                }
+                let boundaries: Vec<usize> = damaged.char_indices().filter(|(_, c)| *c == ' ').map(|x| x.0).collect();
+                if let Some(&b) = boundaries.get(rng.below(boundaries.len().max(1))) {
+                    // only outside braces
+                    if damaged[..b].matches('{').count() == damaged[..b].matches('}').count() {
+                        let ws = *rng.pick(&["\u{a0}", "\u{2003}", "\u{3000}", "\t", "\n", "\u{a0} ", " \u{2003}"]);
+                        let mut t = damaged.clone();
+                        t.replace_range(b..b + 1, ws);
+                        extra.push((format!("{kind} + exotic whitespace"), t));
+                    }
+                }
+            }
+            all.extend(extra);
             for (kind, damaged) in all {
                 st.bump("cases");
-                st.bump(&format!("damage: {}", kind.split('\'').next().unwrap().trim()));
+                st.bump(&format!("damage: {}{}", kind.split('\'').next().unwrap().trim(), if kind.ends_with("exotic whitespace") { " + exotic whitespace" } else { "" }));
                 let acc = accepted_by(&damaged, fam);
                 if !acc.is_empty() {
                     if st.violations.len() >= 8 {
